@@ -186,11 +186,13 @@ Definition disp_spec (c : cfg) (i : disp_in) (o : disp_out) : bool :=
 
 (** *** C14, chart level: unparsable lines inserted into a clean chart.
     aux: the implementation's parse of the clean chart and the inserted lines in routing order. *)
-Definition C14_spec (aux : parse_out * list str) (o : parse_out) : bool :=
-  match fst aux, o with
+Definition C14_spec (aux : parse_out * list str * Z) (o : parse_out) : bool :=
+  match fst (fst aux), o with
   | Ok (ch0, logs0), Ok (ch, logs) =>
       chart_eqb ch ch0 &&
-      list_eqb log_eqb logs (logs0 ++ map LUnparsable (snd aux))
+      list_eqb log_eqb logs (logs0 ++ map LUnparsable (snd (fst aux))) &&
+      (* conservation on the clean chart itself: every body line of the clean chart yields an event (a note event per tick) *)
+      (Z.of_nat (length (all_timed ch0) + length (st_anchor (c_sync ch0))) =? snd aux)
   | Err e0, Err e => errkind_eqb e0 e
   | _, _ => false
   end.
@@ -440,7 +442,8 @@ Definition C13_spec (aux : C13_aux) (o : parse_out) : bool :=
   | Ok _, Err _ =>
       (* a selection alone never makes a parse fail; a replaced body may (when it is selected) *)
       match changed with Some ck => wanted sel ck | None => false end
-  | Err _, _ => true
+  (* the ORIGINAL text is assembled by the generator from valid section bodies: its unrestricted parse must succeed *)
+  | Err _, _ => false
   end.
 
 (** *** C20 *)
